@@ -9,7 +9,7 @@ use std::cell::{Cell, RefCell};
 use std::num::NonZero;
 use std::ops::Deref;
 use std::sync::atomic::{AtomicU32, AtomicU64, Ordering};
-use std::sync::{Arc, Mutex};
+use std::sync::{Arc, Mutex, OnceLock};
 
 use infinity_pool::verif::{self, Event, Op};
 use infinity_pool::{BlindPool, BlindPooled, BlindPooledMut, OpaquePool, PinnedPool, Pooled, PooledMut};
@@ -18,9 +18,40 @@ use vrt::{json, Rng, Tracer, Value};
 static SEQ: AtomicU64 = AtomicU64::new(1);
 static NEXT_OBJ: AtomicU32 = AtomicU32::new(1);
 
+type Log = Arc<Mutex<Vec<Value>>>;
+/// every thread's log, reachable from any thread so that the trace survives a panic of the code under test
+static REGISTRY: Mutex<Vec<Log>> = Mutex::new(Vec::new());
+static OUT: OnceLock<String> = OnceLock::new();
+
 thread_local! {
-    static LOG: RefCell<Vec<Value>> = const { RefCell::new(Vec::new()) };
+    static LOG: RefCell<Option<Log>> = const { RefCell::new(None) };
     static TID: Cell<u32> = const { Cell::new(0) };
+}
+
+fn my_log() -> Log {
+    LOG.with(|l| {
+        l.borrow_mut()
+            .get_or_insert_with(|| {
+                let log: Log = Arc::new(Mutex::new(Vec::new()));
+                REGISTRY.lock().unwrap_or_else(|e| e.into_inner()).push(log.clone());
+                log
+            })
+            .clone()
+    })
+}
+
+/// merge all logs by sequence number and write the trace
+fn dump() {
+    let mut all: Vec<Value> = Vec::new();
+    for log in REGISTRY.lock().unwrap_or_else(|e| e.into_inner()).iter() {
+        all.extend(log.lock().unwrap_or_else(|e| e.into_inner()).iter().cloned());
+    }
+    all.sort_by_key(|v| v["seq"].as_u64().unwrap());
+    let tr = Tracer::create(OUT.get().expect("no output path"));
+    for v in &all {
+        tr.emit(v);
+    }
+    tr.flush();
 }
 
 fn tid() -> u32 {
@@ -32,7 +63,7 @@ fn rec(mut v: Value) {
     let s = SEQ.fetch_add(1, Ordering::SeqCst);
     v["seq"] = json!(s);
     v["t"] = json!(tid());
-    LOG.with(|l| l.borrow_mut().push(v));
+    my_log().lock().unwrap_or_else(|e| e.into_inner()).push(v);
 }
 
 fn small(x: usize) -> usize {
@@ -313,7 +344,7 @@ fn drop_handle<L: Pl>(h: H<L>) {
     rec(json!({"ev":"resp","op":"drop","obj":0,"v":0}));
 }
 
-fn worker<L: Pl>(t: u32, pool: L, ops: u64, seed: u64, gone: bool, exchange: Arc<Mutex<Vec<H<L>>>>) -> (Vec<Value>, Vec<H<L>>) {
+fn worker<L: Pl>(t: u32, pool: L, ops: u64, seed: u64, gone: bool, exchange: Arc<Mutex<Vec<H<L>>>>) -> Vec<H<L>> {
     TID.with(|c| c.set(t));
     let mut rng = Rng::new(seed ^ (u64::from(t) << 32) ^ 0x5151);
     let mut pool = Some(pool);
@@ -427,16 +458,22 @@ fn worker<L: Pl>(t: u32, pool: L, ops: u64, seed: u64, gone: bool, exchange: Arc
         }
     }
     drop(pool);
-    (LOG.with(|l| std::mem::take(&mut *l.borrow_mut())), hs)
+    hs
 }
 
 fn run<L: Pl>(threads: u32, ops: u64, slabcap: usize, gone: bool, out: &str) {
+    OUT.set(out.to_string()).expect("set once");
     verif::set_slab_capacity_override(NonZero::new(slabcap));
     verif::set_event_callback(Some(on_event));
     std::panic::set_hook(Box::new(|info| {
         let msg = info.payload().downcast_ref::<&str>().map(|s| (*s).to_string())
             .or_else(|| info.payload().downcast_ref::<String>().cloned()).unwrap_or_default();
         rec(json!({"ev":"oppanic","op":"-","obj":0,"v":0,"msg":msg.chars().take(160).collect::<String>()}));
+        // a panic of the code under test ends the run: keep what was recorded (unwinding through more handle
+        // drops could abort the process and lose the trace)
+        dump();
+        // SAFETY: plain process exit.
+        unsafe { libc::_exit(0) };
     }));
     let seed = vrt::seed_from_env();
     let pool = L::new();
@@ -450,14 +487,10 @@ fn run<L: Pl>(threads: u32, ops: u64, slabcap: usize, gone: bool, out: &str) {
     if gone {
         pool = None;
     }
-    let mut all: Vec<Value> = Vec::new();
     let mut left: Vec<H<L>> = Vec::new();
     for j in joins {
         match j.join() {
-            Ok((log, hs)) => {
-                all.extend(log);
-                left.extend(hs);
-            }
+            Ok(hs) => left.extend(hs),
             Err(_) => rec(json!({"ev":"oppanic","op":"-","obj":0,"v":0,"msg":"worker thread died"})),
         }
     }
@@ -482,13 +515,7 @@ fn run<L: Pl>(threads: u32, ops: u64, slabcap: usize, gone: bool, out: &str) {
         None => rec(json!({"ev":"quiet","op":"nopool","obj":0,"v":0})),
     }
     drop(pool);
-    all.extend(LOG.with(|l| std::mem::take(&mut *l.borrow_mut())));
-    all.sort_by_key(|v| v["seq"].as_u64().unwrap());
-    let tr = Tracer::create(out);
-    for v in &all {
-        tr.emit(v);
-    }
-    tr.flush();
+    dump();
 }
 
 pub fn main(args: &[String]) {
